@@ -11,6 +11,7 @@ import (
 	"sort"
 	"strings"
 	"sync"
+	"sync/atomic"
 	"time"
 
 	"go.opentelemetry.io/otel/attribute"
@@ -42,6 +43,34 @@ func (p *recProc) OnEnd(s sdktrace.ReadOnlySpan) {
 }
 func (p *recProc) Shutdown(context.Context) error   { return nil }
 func (p *recProc) ForceFlush(context.Context) error { return nil }
+
+// liveReader is a processor of the kind that copies things from the live parent to its children: under
+// its own mutex OnStart reads the parent span found in the context, and OnEnd takes the same mutex.
+type liveReader struct {
+	mu    sync.Mutex
+	reads int
+}
+
+func (p *liveReader) OnStart(parent context.Context, s sdktrace.ReadWriteSpan) {
+	p.mu.Lock()
+	defer p.mu.Unlock()
+	if ps, ok := trace.SpanFromContext(parent).(sdktrace.ReadOnlySpan); ok {
+		_ = ps.Attributes()
+		_ = ps.Name()
+		_ = ps.Events()
+		p.reads++
+	}
+	_ = s.Attributes()
+}
+func (p *liveReader) OnEnd(s sdktrace.ReadOnlySpan) {
+	p.mu.Lock()
+	defer p.mu.Unlock()
+	_ = s.Name()
+}
+func (p *liveReader) Shutdown(context.Context) error   { return nil }
+func (p *liveReader) ForceFlush(context.Context) error { return nil }
+
+var deadlocksSeen atomic.Int32
 
 func snapshotString(s sdktrace.ReadOnlySpan) string {
 	var sb strings.Builder
@@ -88,12 +117,21 @@ func runCase(k *vf.Case, traced bool) {
 	procs := vf.Pick(r, []int{2, 4, 16})
 	prev := runtime.GOMAXPROCS(procs)
 	defer runtime.GOMAXPROCS(prev)
+	if deadlocksSeen.Load() >= 3 {
+		k.C.Count("cases_skipped_after_three_deadlocks", 1)
+		return
+	}
 	lim := sdktrace.SpanLimits{AttributeValueLengthLimit: -1, AttributeCountLimit: -1, EventCountLimit: -1, LinkCountLimit: -1, AttributePerEventCountLimit: -1, AttributePerLinkCountLimit: -1}
+	if r.Chance(1, 2) {
+		// tiny event / link queues: every further event evicts the oldest one in place
+		lim.EventCountLimit, lim.LinkCountLimit = vf.Pick(r, []int{1, 2, 4}), vf.Pick(r, []int{1, 2, 4})
+	}
 	p1 := &recProc{name: "p1", got: map[trace.SpanID][]delivered{}}
 	p2 := &recProc{name: "p2", got: map[trace.SpanID][]delivered{}}
 	var churnMu sync.Mutex
 	var churners []*recProc
-	tp := sdktrace.NewTracerProvider(sdktrace.WithRawSpanLimits(lim), sdktrace.WithSampler(sdktrace.AlwaysSample()), sdktrace.WithSpanProcessor(p1), sdktrace.WithSpanProcessor(p2))
+	p4 := &liveReader{}
+	tp := sdktrace.NewTracerProvider(sdktrace.WithRawSpanLimits(lim), sdktrace.WithSampler(sdktrace.AlwaysSample()), sdktrace.WithSpanProcessor(p1), sdktrace.WithSpanProcessor(p2), sdktrace.WithSpanProcessor(p4))
 	tr := tp.Tracer("c10")
 	nShared := 1 + r.Intn(2)
 	var spans []shared
@@ -193,8 +231,25 @@ func runCase(k *vf.Case, traced bool) {
 					churners = append(churners, p3)
 					churnMu.Unlock()
 					tp.RegisterSpanProcessor(p3)
-					runtime.Gosched()
+					// Register has returned: a span started and ended now reaches this processor exactly once
+					_, in := tr.Start(context.Background(), "in-window-"+tag)
+					in.End()
+					p3.mu.Lock()
+					nIn := len(p3.got[in.SpanContext().SpanID()])
+					p3.mu.Unlock()
 					tp.UnregisterSpanProcessor(p3)
+					// Unregister has returned: nothing more reaches it
+					_, after := tr.Start(context.Background(), "after-window-"+tag)
+					after.End()
+					p3.mu.Lock()
+					nAfter := len(p3.got[after.SpanContext().SpanID()])
+					p3.mu.Unlock()
+					if nIn != 1 {
+						op.kind = fmt.Sprintf("Churn-missed:%d", nIn)
+					} else if nAfter != 0 {
+						op.kind = fmt.Sprintf("Churn-late:%d", nAfter)
+					}
+					localChildren = append(localChildren, in.SpanContext().SpanID(), after.SpanContext().SpanID())
 				}
 				if op.ret == 0 {
 					op.ret = vf.Tick()
@@ -203,13 +258,14 @@ func runCase(k *vf.Case, traced bool) {
 			}
 		}(g)
 	}
-	finished, stuck, desc := vf.Watch(60*time.Second, 2*time.Second, func() {
+	finished, stuck, desc := vf.Watch(15*time.Second, 2*time.Second, func() {
 		close(release)
 		wg.Wait()
 	})
 	mode := map[bool]string{true: "traced", false: "untraced"}[traced]
 	if !finished {
 		if stuck {
+			deadlocksSeen.Add(1)
 			k.Violate("deadlock", mode, desc, nil)
 		} else {
 			k.C.Inconclusive("case did not finish within the watchdog")
@@ -248,6 +304,12 @@ func runCase(k *vf.Case, traced bool) {
 		k.Violate(class, mode+" "+key, fmt.Sprintf("mode=%s G=%d procs=%d endHeavy=%v\n%s", mode, G, procs, endHeavy, detail), nil)
 	}
 	for _, op := range ops {
+		if strings.HasPrefix(op.kind, "Churn-missed") {
+			fail("registered-processor-missed-span", "", "a span started and ended between RegisterSpanProcessor and UnregisterSpanProcessor of this goroutine's own processor was delivered to it "+strings.TrimPrefix(op.kind, "Churn-missed:")+" times")
+		}
+		if strings.HasPrefix(op.kind, "Churn-late") {
+			fail("unregistered-processor-got-span", "", "a span started after UnregisterSpanProcessor had returned was delivered to the unregistered processor")
+		}
 		if op.kind == "IsRecording-true-after-own-End" {
 			fail("recording-after-end", "", "IsRecording() returned true after this goroutine's End had returned")
 		}
